@@ -101,6 +101,20 @@ pub fn lattice_quick() -> Vec<Cfg> {
     v.push(Cfg::new(8, 16, 32, 2));
     v.push(Cfg::new(64, 16, 16, 1));
     v.push(Cfg::new(1, 32, 32, 1));
+    // the values in between: every extension degree, every bit length and every aggregation size occurs in the quick
+    // tier, each with a small and a large partner in the other dimensions
+    for &d in &[4usize, 5] {
+        for &(n, m, c) in &[(1usize, 1usize, 1usize), (2, 2, 2), (8, 2, 8), (64, 1, 2), (16, 4, 4), (32, 8, 8)] {
+            v.push(Cfg::new(n, m, c, d));
+        }
+    }
+    for &n in &[16usize, 32] {
+        for &(m, c, d) in &[(1usize, 2usize, 2usize), (8, 8, 3), (1, 32, 3), (16, 16, 2)] {
+            v.push(Cfg::new(n, m, c, d));
+        }
+    }
+    v.push(Cfg::new(2, 32, 32, 2));
+    v.push(Cfg::new(4, 16, 16, 6));
     v
 }
 
